@@ -555,6 +555,18 @@ class Interp:
         if not proj:
             fr.locals[local] = val
             return
+        # index projections name locals of THIS frame: make them constants before following references into other frames
+        res = []
+        for p in proj:
+            if isinstance(p, dict) and "index" in p:
+                i = fr.locals.get(p["index"])
+                c = i.const() if isinstance(i, AI) else None
+                if c is None:
+                    raise Undecided("store index not constant")
+                res.append({"const_index": c})
+            else:
+                res.append(p)
+        proj = res
         # resolve leading derefs through references
         if proj[0] == "deref":
             r = fr.locals.get(local)
@@ -1033,6 +1045,15 @@ class Interp:
                 return AI("bool", r, r)
             if all(isinstance(v, AI) for v in vs):
                 return self.compare("Eq" if name.endswith("eq") else "Ne", vs[0], vs[1])
+        m = re.match(r"std::cmp::PartialOrd::(lt|le|gt|ge)$", name)
+        if m and len(args) == 2:
+            vs = []
+            for a in args:
+                if isinstance(a, Ref):
+                    a = self.project(a.frame, a.frame.locals.get(a.local), a.proj)
+                vs.append(a)
+            if all(isinstance(v, AI) for v in vs):
+                return self.compare({"lt": "Lt", "le": "Le", "gt": "Gt", "ge": "Ge"}[m.group(1)], vs[0], vs[1])
         if name == "std::ops::Try::branch":
             v = args[0]
             if isinstance(v, Agg) and v.variant == "Ok":
